@@ -1162,9 +1162,12 @@ class SP(Robot):
         This function can be used to mirror all the joint locations and "fix" the resultant problem
         Meant to be called internally only.
         """
+        #The mirror plane is the plane of the bottom joints (only then are leg lengths preserved);
+        #it is not at bottom_plate_thickness for every constructor (makeSP puts the joints at half of it)
+        bottom_joint_plane_height = self._bottom_joints_local[2, 0]
         for num in range(6):
             newTJ = fsr.mirror(self.getBottomT() @
-                tm([0, 0, self.bottom_plate_thickness, 0, 0, 0]),
+                tm([0, 0, bottom_joint_plane_height, 0, 0, 0]),
                 tm([self._top_joints_space[0, num],
                 self._top_joints_space[1, num],
                 self._top_joints_space[2, num], 0, 0, 0]))
@@ -1176,7 +1179,7 @@ class SP(Robot):
         #The mirror image of the top plate. Reflecting in the base joint plane and then in the
         #plate's own joint plane (which leaves every joint where it is) is a proper rigid motion,
         #so the new pose carries the plate's joints exactly onto the mirrored joints above.
-        mirror_plane = self.getBottomT() @ tm([0, 0, self.bottom_plate_thickness, 0, 0, 0])
+        mirror_plane = self.getBottomT() @ tm([0, 0, bottom_joint_plane_height, 0, 0, 0])
         joint_plane_height = self._top_joints_local[2, 0]
         joint_plane = self.getTopT() @ tm([0, 0, joint_plane_height, 0, 0, 0])
         normal = mirror_plane.gTM()[0:3, 2]
